@@ -44,18 +44,22 @@ def gen_case(r, big):
     ops.append(("net",))
     now = T0
     dirty = False  # announcements / heartbeats queued since the last `net`
+    undelivered = False  # a DATA datagram is queued
     for _ in range(r.randint(3, 12 if big else 8)):
         k = r.random()
         if k < 0.4:
-            if dirty:
-                # the in-memory network is FIFO: flush first so that the DATA datagram is the
-                # first one of the next delivery (the model handles the reception first)
+            if dirty or undelivered:
+                # the in-memory network is FIFO: flush first so that the (single) DATA datagram is
+                # the first one of the next delivery (the model handles the reception first)
                 ops.append(("net",))
                 dirty = False
+                undelivered = False
             w = r.randrange(nw)
             ops.append(("w", w, r.choice([1, 1, 2, 3])))
+            undelivered = True
             if r.random() < 0.75:
                 ops.append(("net",))
+                undelivered = False
         elif k < 0.85:
             base = r.choice([rd, wds[0], 2 * rd, rd // 2, 3 * rd, 50 * MS, 10 * MS, 123456789])
             dt = max(1, base + r.choice([0, 0, 1, -1, 2, 1000, 25 * MS]))
@@ -68,6 +72,7 @@ def gen_case(r, big):
             if r.random() < 0.7:
                 ops.append(("net",))
                 dirty = False
+                undelivered = False
         elif k < 0.93:
             ops.append(("odm", r.randrange(nw)))
         else:
@@ -80,7 +85,7 @@ def gen_case(r, big):
 
 
 def gen(r, tier):
-    n = {"quick": 170, "search": 900, "thorough": 2500}[tier]
+    n = {"quick": 170, "search": 900, "thorough": 1500}[tier]
     return [gen_case(r, tier != "quick") for _ in range(n)]
 
 
